@@ -86,6 +86,47 @@ theorem C14t_clock_is_urgent (P : Params) (N : Nat) (s : T) (d : Nat) :
     simp [stepT, hp, hs]
     intro hle; omega
 
+/-- **no time-lock, no dead end**: while `initialize()` is in progress some step other than the passage of time is enabled, or time can
+    pass up to the running wait's deadline (at which the time-out is enabled) -/
+theorem C14t_always_a_step (P : Params) (N : Nat) (s : T) (h : ReachableT P N s)
+    (hp : s.a.phase = .enqueueing ∨ (∃ dl, s.a.phase = .detecting dl) ∨ ∃ todo, s.a.phase = .building todo) :
+    (∃ l, (∀ d, l ≠ .base (.tick d)) ∧ (stepT P N s l).isSome) ∨
+    (∃ dl, s.a.phase = .detecting dl ∧ s.a.now < dl ∧ (stepT P N s (.base (.tick (dl - s.a.now)))).isSome) := by
+  obtain ⟨hI, hT⟩ := tinv_reachable P N s h
+  have hph := hI.phase
+  unfold PhaseInv at hph
+  rcases hp with hp | ⟨dl, hp⟩ | ⟨todo, hp⟩
+  · left
+    refine ⟨.base (.wait 0), by intro d; simp, ?_⟩
+    simp [stepT, step, hp]
+  · by_cases he : s.a.event = true
+    · left
+      refine ⟨.base .wake, by intro d; simp, ?_⟩
+      simp [stepT, step, hp, he]
+    · by_cases hd : dl ≤ s.a.now
+      · left
+        refine ⟨.base .timeout, by intro d; simp, ?_⟩
+        simp [stepT, step, hp, hd]
+      · right
+        refine ⟨dl, hp, by omega, ?_⟩
+        have : s.a.now + (dl - s.a.now) ≤ dl := by omega
+        simp [stepT, step, hp, he, this]
+  · left
+    rw [hp] at hph
+    cases hdl : s.objDl with
+    | none =>
+      cases todo with
+      | nil => exact absurd rfl hph.2.2.2.1
+      | cons i rest =>
+        refine ⟨.construct 0, by intro d; simp, ?_⟩
+        simp [stepT, hp, hdl]
+    | some d0 =>
+      cases todo with
+      | nil => exact absurd rfl hph.2.2.2.1
+      | cons i rest =>
+        refine ⟨.base .subunitOk, by intro d; simp, ?_⟩
+        simp [stepT, step, hp, hdl]
+
 /-! ## with the regenerated tables: 23 classes, the longest initial query list -/
 
 def realParams : Params := { classIds := Gen.classes.map (·.id), perCmdUs := 5 * Gen.spacingUs }
